@@ -154,7 +154,12 @@ func underIface(v ssa.Value) ssa.Value {
 
 // okEdges returns the ok edges of a call's error result; when the error is
 // returned directly (terminal) there is no continuation and ok is empty.
-func okEdges(call ssa.CallInstruction) []cfgx.Edge { return cfgx.ErrEvents(call).OK }
+// okEdges: the edges on which call succeeded. An error passed through a filter
+// (IgnoreNotFound, Ignore(pred), ...) before its nil test does not count as
+// success unless the filter is named in allow (the rule then says "ok-or-X").
+func okEdges(call ssa.CallInstruction, allow ...string) []cfgx.Edge {
+	return cfgx.ErrEvents(call).StrictOK(allow...)
+}
 
 func failEdges(call ssa.CallInstruction) []cfgx.Edge { return cfgx.ErrEvents(call).Fail }
 
@@ -195,4 +200,18 @@ func firstPos(b *ssa.BasicBlock) token.Pos {
 		}
 	}
 	return token.NoPos
+}
+
+// extractOf returns the Extract of tuple element idx of a tuple-typed value
+// (comma-ok lookups, type asserts, calls), or nil.
+func extractOf(v ssa.Value, idx int) ssa.Value {
+	if v.Referrers() == nil {
+		return nil
+	}
+	for _, r := range *v.Referrers() {
+		if ex, ok := r.(*ssa.Extract); ok && ex.Index == idx {
+			return ex
+		}
+	}
+	return nil
 }
